@@ -461,6 +461,12 @@ func (vc *FuncVC) run() {
 		vc.vals[p] = t
 		vc.assume(True, vc.typeFacts(t, p.Type(), 0))
 		vc.assume(True, vc.allocFacts(st, t, p.Type(), 0))
+		if isContextType(p.Type()) {
+			// convention of package context ("Do not pass a nil Context"): assumed of every function's own
+			// context parameter, and demanded of every context argument passed to a repository function (calls.go)
+			vc.assume(True, Not(Eq(t, Term{"nil_iface", SIface})))
+			vc.note("assumed: context parameter " + p.Name() + " is not nil (package context: \"Do not pass a nil Context\"); checked at every call site inside the module")
+		}
 	}
 	for i, p := range fn.FreeVars {
 		s := vc.tc.SortOf(p.Type())
@@ -470,6 +476,13 @@ func (vc *FuncVC) run() {
 		vc.vals[p] = t
 		vc.assume(True, vc.typeFacts(t, p.Type(), 0))
 		vc.assume(True, vc.allocFacts(st, t, p.Type(), 0))
+		if isContextType(p.Type()) {
+			vc.assume(True, Not(Eq(t, Term{"nil_iface", SIface})))
+		}
+		if pt, ok := under(p.Type()).(*types.Pointer); ok && isContextType(pt.Elem()) {
+			// a context variable captured by reference: not nil when the closure runs (obliged where the closure is made)
+			vc.assume(True, Not(Eq(vc.load(st, t, SIface), Term{"nil_iface", SIface})))
+		}
 		if _, ok := under(p.Type()).(*types.Pointer); ok {
 			vc.assume(True, Not(Eq(t, Null)))
 			// a captured variable is a cell of its own
@@ -1250,6 +1263,13 @@ func (vc *FuncVC) instr(b *ssa.BasicBlock, idx int, ins ssa.Instruction, st *Sta
 		for _, bnd := range x.Bindings {
 			if _, ok := under(bnd.Type()).(*types.Pointer); ok {
 				vc.closureCells = append(vc.closureCells, vc.val(bnd))
+			}
+			if pt, ok := under(bnd.Type()).(*types.Pointer); ok && isContextType(pt.Elem()) {
+				vc.safetyOb("nilctx", "nil context captured by closure "+fnv.Name(), x.Pos(), reach, Not(Eq(vc.load(st, vc.val(bnd), SIface), Term{"nil_iface", SIface})))
+			}
+			if isContextType(bnd.Type()) {
+				// the closure assumes a context it captures by value is not nil (see the parameter convention)
+				vc.safetyOb("nilctx", "nil context captured by closure "+fnv.Name(), x.Pos(), reach, Not(Eq(vc.val(bnd), Term{"nil_iface", SIface})))
 			}
 		}
 	case *ssa.ChangeInterface:
@@ -2040,4 +2060,9 @@ func plainErrorType(t types.Type) bool {
 		}
 	}
 	return true
+}
+
+func isContextType(t types.Type) bool {
+	n, ok := t.(*types.Named)
+	return ok && n.Obj().Pkg() != nil && n.Obj().Pkg().Path() == "context" && n.Obj().Name() == "Context"
 }
